@@ -12,7 +12,14 @@ import (
 // the dialer of every webhook HTTP client.
 var VerifHTTPDial func(ctx context.Context, network, addr string) (net.Conn, error)
 
+// VerifHTTPBeforeSend, when set, is called by the sending goroutine before
+// every webhook POST (lets a harness attribute the goroutine to a server).
+var VerifHTTPBeforeSend func()
+
 func verifHTTPClient(c *http.Client) {
+	if VerifHTTPBeforeSend != nil {
+		VerifHTTPBeforeSend()
+	}
 	if VerifHTTPDial == nil {
 		return
 	}
